@@ -77,7 +77,9 @@ theorem finished_is_inert (sp : Spec) (w : World) (ev : Event) (hc : isCompleted
             · exact ⟨rfl, rfl⟩
             · split
               · exact ⟨rfl, rfl⟩
-              · exact ⟨by simp [ids, setTask_ids], rfl⟩
+              · split
+                · exact ⟨rfl, rfl⟩
+                · exact ⟨by simp [ids, setTask_ids], rfl⟩
       | rpcResult t ok =>
         simp only
         split
